@@ -18,6 +18,8 @@
  *                              the previous; T<n> = Tx-empty interrupt with room for n octets in the
  *                              FIFO, R<n> = Rx interrupt delivering up to n inbound octets
  *   F <hex>                    append octets to the inbound line (what the host sends)
+ *   Q <gap>:<dlci>:<hex> ...   messages sent with sercomm_sendmsg() from FIQ level while a UART interrupt is being served
+ *                              ("q <index> <callback number>" is printed when one is sent)
  *   S <dlci> <hex|->           sercomm_alloc_msgb + sercomm_sendmsg in the main context
  *   X <n> / Y <n>              a Tx / Rx interrupt between two main-context operations
  *   Z                          serve interrupts until everything is drained; prints
@@ -35,11 +37,18 @@
 #include <comm/sercomm.h>
 #include <uart.h>
 
-volatile int verif_irq_masked;
+volatile int verif_irq_masked, verif_fiq_masked;
 unsigned long verif_lock_sections;
 
 static int in_isr, tx_irq_enabled, armed;
 static unsigned long ev, ev_masked, next_fire, fired;
+
+/* FIQ level: the frame interrupt of layer 1 may preempt the UART interrupt handler (only IRQs are masked while
+ * an IRQ is served) and sends messages with sercomm_sendmsg() from there */
+struct fiq_item { unsigned long gap; int dlci; int len; uint8_t data[64]; };
+static struct fiq_item fiq_plan[256];
+static int fiq_n, fiq_pos;
+static unsigned long fiq_ev, fiq_next, fiq_fired;
 
 struct plan_item { unsigned long gap; char kind; int n; };
 static struct plan_item plan[4096];
@@ -80,8 +89,10 @@ static void isr(char kind, int n)
 	int k, saved = verif_irq_masked;
 	uint8_t ch;
 
+	int saved_f = verif_fiq_masked;
 	in_isr = 1;
-	verif_irq_masked = 1;	/* the CPU masks IRQs while it serves one */
+	verif_irq_masked = 1;	/* the CPU masks IRQs while it serves one - FIQs stay enabled */
+	verif_fiq_masked = 0;
 	if (kind == 'T') {
 		for (k = 0; tx_irq_enabled && k < n; k++) {
 			if (!sercomm_drv_pull(&ch)) {
@@ -95,13 +106,43 @@ static void isr(char kind, int n)
 			sercomm_drv_rx_char(inbound[in_pos++]);
 	}
 	verif_irq_masked = saved;
+	verif_fiq_masked = saved_f;
 	in_isr = 0;
+}
+
+static void fiq(void)
+{
+	struct fiq_item *it = &fiq_plan[fiq_pos++];
+	int si = verif_irq_masked, sf = verif_fiq_masked;
+	struct msgb *msg;
+	in_isr = 2;
+	verif_irq_masked = verif_fiq_masked = 1;
+	printf("q %d %lu\n", fiq_pos - 1, fiq_ev);
+	msg = sercomm_alloc_msgb(it->len ? it->len : 1);
+	if (it->len)
+		memcpy(msgb_put(msg, it->len), it->data, it->len);
+	sercomm_sendmsg(it->dlci, msg);
+	fiq_fired++;
+	verif_irq_masked = si;
+	verif_fiq_masked = sf;
+	in_isr = 1;
+	if (fiq_pos < fiq_n)
+		fiq_next = fiq_ev + fiq_plan[fiq_pos].gap;
 }
 
 static inline void hook(void *pc)
 {
-	if (in_isr)
+	if (in_isr == 2)
 		return;
+	if (in_isr == 1) {
+		/* inside the UART interrupt handler: a FIQ may come in unless both are masked */
+		if (verif_fiq_masked)
+			return;
+		fiq_ev++;
+		if (fiq_pos < fiq_n && fiq_ev == fiq_next)
+			fiq();
+		return;
+	}
 	if (verif_irq_masked) {
 		ev_masked++;
 		return;
@@ -140,8 +181,9 @@ static void put_hex(const uint8_t *d, unsigned n)
 
 static void rx_cb(uint8_t dlci, struct msgb *msg)
 {
+	unsigned n = msgb_length(msg);	/* (instrumented code: an interrupt may be served inside; keep the line in one piece) */
 	printf("D %u ", dlci);
-	put_hex(msg->data, msgb_length(msg));
+	put_hex(msg->data, n);
 	putchar('\n');
 	msgb_free(msg);
 }
@@ -189,6 +231,24 @@ int main(int argc, char **argv)
 		case 'F':
 			in_n += unhex(line + 2, inbound + in_n);
 			break;
+		case 'Q': {
+			/* Q <gap>:<dlci>:<hex|-> ...  messages sent from FIQ level, the k-th one at the gap-th unmasked callback
+			 * inside UART interrupt handlers after the previous one */
+			char *p = line + 1;
+			fiq_n = fiq_pos = 0;
+			fiq_ev = fiq_fired = 0;
+			while (*p && fiq_n < 256) {
+				unsigned long gap; int dlci, off = 0; char hex[140];
+				if (sscanf(p, " %lu:%d:%139s%n", &gap, &dlci, hex, &off) < 3)
+					break;
+				fiq_plan[fiq_n].gap = gap; fiq_plan[fiq_n].dlci = dlci;
+				fiq_plan[fiq_n].len = unhex(hex, fiq_plan[fiq_n].data);
+				fiq_n++;
+				p += off;
+			}
+			fiq_next = fiq_n ? fiq_plan[0].gap : 0;
+			break;
+		}
 		case 'S': {
 			int dlci, off = 0, n;
 			struct msgb *msg;
@@ -216,7 +276,8 @@ int main(int argc, char **argv)
 			}
 			printf("W ");
 			put_hex(wire, wire_n);
-			printf("\ne %lu %lu %lu\n", ev, ev_masked, fired);
+			printf("\ne %lu %lu %lu %lu %lu\n", ev, ev_masked, fired, fiq_ev, fiq_fired);
+			fiq_n = fiq_pos = 0;
 			wire_n = 0;
 			in_n = in_pos = 0;
 			break;
